@@ -6,7 +6,7 @@
 (* Universe.  Terms 1..4 = T1, T1' (T1's name, another label), T1'' (T1's  *)
 (* label, another name), T2, without URI; terms 5..7 with a URI (equal URI *)
 (* and different name; equal name and different URI);                      *)
-(* values 1..5 = "a", "b", "c", "a ", " a"; universe tags 1..17 =          *)
+(* values 1..5 = "a", "b", "c", "a ", " a"; universe tags 1..19 =          *)
 (* UTag[u] = <<term, value>>.  Two tags are equal iff they are the same    *)
 (* universe tag (the binder builds them from this table, always as fresh   *)
 (* objects).  Python indices are 0-based: vocabulary position k <-> k - 1. *)
@@ -32,14 +32,19 @@
 EXTENDS Lattice
 
 \* terms 5..7 carry a URI: T5 and T6 share the URI under different names, T7 has T5's name and label under another URI
-TermName  == <<"n1", "n1", "n2", "n3", "n4", "n5", "n4">>
-TermLabel == <<"l1", "l2", "l1", "l3", "l4", "l4", "l4">>
-TermUri   == <<"", "", "", "", "u1", "u1", "u2">>
+\* terms 8, 9 are T1 in every declared field plus an EXTRA attribute status = "draft" / "final" (Term allows extras and
+\* they count in equality): three different terms
+TermName  == <<"n1", "n1", "n2", "n3", "n4", "n5", "n4", "n1", "n1">>
+TermLabel == <<"l1", "l2", "l1", "l3", "l4", "l4", "l4", "l1", "l1">>
+TermUri   == <<"", "", "", "", "u1", "u1", "u2", "", "">>
+Declared  == <<1, 2, 3, 4, 5, 6, 7, 1, 1>>          \* the term one gets by looking at the declared fields only
 UTag == << <<1, 1>>, <<1, 2>>, <<2, 1>>, <<3, 1>>, <<4, 1>>, <<4, 2>>,
            <<2, 2>>, <<3, 2>>, <<1, 3>>, <<2, 3>>, <<3, 3>>, <<4, 3>>,
            <<5, 1>>, <<6, 1>>, <<7, 1>>,            \* 13..15: tags on the URI-bearing terms
-           <<1, 4>>, <<1, 5>> >>                    \* 16, 17: T1 with the values "a " and " a" (value 1 = "a")
+           <<1, 4>>, <<1, 5>>,                      \* 16, 17: T1 with the values "a " and " a" (value 1 = "a")
+           <<8, 1>>, <<9, 1>> >>                    \* 18, 19: value "a" on the terms with the extra attribute
 UriTags == {1, 13, 14, 15}
+XTags   == {1, 2, 18, 19}                           \* same declared term fields, extra attribute absent / draft / final
 WsTags  == {1, 2, 16, 17}                           \* values that differ only by surrounding whitespace are different values
 StripVal == <<1, 2, 3, 1, 1>>                       \* what value.strip() would make of values 1..5
 NU == Len(UTag)
@@ -120,17 +125,23 @@ FieldDom == << <<2, 2, 2, 2, 3, 2>>,   \* Term: name, label, definition, an extr
                                        \*       uri (none, u1, u2), comment (none, given)
                <<7, 2>>,          \* Tag: term (T1, T1', T1'', T2, T5, T6, T7), value
                <<7, 5>>,          \* Feature: term, value (0.0, -0.0, 0.5, float("nan"), numpy.nan)
-               <<2, 2, 2, 2>>,    \* Note: uuid, message, is_issue, created_on
-               <<2, 2, 2, 2>>,    \* SoundEvent: uuid, geometry, recording, features
+               \* some values are the SAME value spelled differently (equal for the models, so equal for the contract):
+               <<2, 2, 2, 4>>,    \* Note: uuid, message, is_issue, created_on (two naive times; 12:00Z; 13:00+01:00 = the
+                                  \*       same instant as 12:00Z)
+               <<2, 2, 3, 2>>,    \* SoundEvent: uuid, geometry, recording (r1, r2, r1 with its path spelled "./r1.wav"), features
                <<2, 2, 2, 2>>,    \* SoundEventAnnotation: uuid, sound_event, tags, notes
-               <<2, 2, 2, 2>>,    \* SoundEventPrediction: uuid, sound_event, score, tags
+               <<2, 2, 3, 2>>,    \* SoundEventPrediction: uuid, sound_event, score (0.5, 1.0, the int 1), tags
                <<2, 2, 2, 2>> >>  \* ClipPrediction: uuid, clip, tags, features
 RECURSIVE Vectors(_, _)
 Vectors(dom, k) == IF k > Len(dom) THEN {<<>>}
                    ELSE {<<a>> \o rest : a \in 1..dom[k], rest \in Vectors(dom, k + 1)}
 Objects(cls) == Vectors(FieldDom[cls], 1)
 \* model equality = all declared fields equal (Feature value: 0.0 and -0.0 are the same number)
-Norm(cls, x) == IF cls = 3 /\ x[2] = 2 THEN <<x[1], 1>> ELSE x
+Norm(cls, x) == CASE cls = 3 /\ x[2] = 2 -> <<x[1], 1>>                    \* -0.0 = 0.0
+                  [] cls = 4 /\ x[4] = 4 -> [x EXCEPT ![4] = 3]             \* one instant, two UTC offsets
+                  [] cls = 5 /\ x[3] = 3 -> [x EXCEPT ![3] = 1]             \* one path, two spellings
+                  [] cls = 7 /\ x[3] = 3 -> [x EXCEPT ![3] = 2]             \* 1 = 1.0
+                  [] OTHER -> x
 \* NaN is not equal to itself, so a Feature holding NaN equals no other Feature object (not even one built alike)
 IsNaN(cls, x) == cls = 3 /\ x[2] \in {4, 5}
 ModelEq(cls, x, y) == ~IsNaN(cls, x) /\ ~IsNaN(cls, y) /\ Norm(cls, x) = Norm(cls, y)
